@@ -1,1 +1,190 @@
-//! Verification doors: http1 (cfg(trusttunnel_verif) only)
+//! Verification doors: the HTTP/1.1 codec alone over an arbitrary transport with a fixed peer
+//! address; the request it recognises as a plain view, the stream's upload source and its
+//! response/download sink as the public mirror traits of `verif::pipe`
+//! (cfg(trusttunnel_verif) only)
+
+use crate::http1_codec::{self, DecodeStatus, Http1Codec};
+use crate::http_codec::{self, HttpCodec, RequestHeaders, ResponseHeaders};
+use crate::log_utils;
+use crate::settings::Settings;
+use crate::verif::pipe::{SinkOut, SourceOut};
+use crate::verif::tunnel::VIo;
+use bytes::BytesMut;
+use std::io;
+use std::net::{IpAddr, SocketAddr};
+use std::sync::Arc;
+use tokio::io::{AsyncRead, AsyncWrite};
+
+/// `http1_codec::MAX_RAW_HEADERS_SIZE`
+pub const MAX_RAW_HEADERS_SIZE: usize = http1_codec::MAX_RAW_HEADERS_SIZE;
+/// `http1_codec::MAX_HEADERS_NUM`
+pub const MAX_HEADERS_NUM: usize = http1_codec::MAX_HEADERS_NUM;
+
+/// Plain view of a request as the codec recognised it
+#[derive(Debug, Clone, PartialEq, Eq)]
+pub struct VRequest {
+    pub method: String,
+    /// `uri.to_string()`
+    pub uri: String,
+    pub scheme: Option<String>,
+    pub authority: Option<String>,
+    pub path_and_query: Option<String>,
+    /// 0 for HTTP/1.0, 1 for HTTP/1.1
+    pub version_minor: u8,
+    /// (lower-case name, value) in the header map's iteration order
+    pub headers: Vec<(String, Vec<u8>)>,
+}
+
+fn view_request(r: &RequestHeaders) -> VRequest {
+    VRequest {
+        method: r.method.as_str().to_string(),
+        uri: r.uri.to_string(),
+        scheme: r.uri.scheme_str().map(String::from),
+        authority: r.uri.authority().map(|a| a.as_str().to_string()),
+        path_and_query: r.uri.path_and_query().map(|p| p.as_str().to_string()),
+        version_minor: match r.version {
+            http::Version::HTTP_10 => 0,
+            http::Version::HTTP_11 => 1,
+            _ => 255,
+        },
+        headers: r
+            .headers
+            .iter()
+            .map(|(n, v)| (n.as_str().to_string(), v.as_bytes().to_vec()))
+            .collect(),
+    }
+}
+
+fn make_response(status: u16, headers: &[(String, String)]) -> io::Result<ResponseHeaders> {
+    let mut b = http::Response::builder().status(status);
+    for (n, v) in headers {
+        b = b.header(n, v);
+    }
+    b.body(())
+        .map(|r| r.into_parts().0)
+        .map_err(|e| io::Error::new(io::ErrorKind::InvalidInput, e.to_string()))
+}
+
+/// The real `Http1Codec` on `io`, reporting `peer` as the client's address
+pub struct VHttp1Codec {
+    codec: Box<dyn HttpCodec>,
+}
+
+impl VHttp1Codec {
+    /// `settings.listen_protocols.http1` must be set (as it is whenever the endpoint builds this codec)
+    pub fn new<IO>(settings: Arc<Settings>, io: IO, peer: SocketAddr) -> Self
+    where
+        IO: 'static + AsyncRead + AsyncWrite + Unpin + Send,
+    {
+        let id = log_utils::IdChain::from(log_utils::IdItem::new(log_utils::CLIENT_ID_FMT, 0));
+        Self {
+            codec: Box::new(Http1Codec::new(settings, VIo { inner: io, peer }, id)),
+        }
+    }
+
+    /// `HttpCodec::listen`
+    pub async fn listen(&mut self) -> io::Result<Option<VStream>> {
+        Ok(self.codec.listen().await?.map(|inner| VStream {
+            request: view_request(inner.request().request()),
+            client_address: inner.request().client_address(),
+            inner,
+        }))
+    }
+
+    /// `HttpCodec::graceful_shutdown`
+    pub async fn graceful_shutdown(&mut self) -> io::Result<()> {
+        self.codec.graceful_shutdown().await
+    }
+}
+
+/// A stream the codec produced: the request view and the real stream behind it
+pub struct VStream {
+    pub request: VRequest,
+    pub client_address: io::Result<IpAddr>,
+    inner: Box<dyn http_codec::Stream>,
+}
+
+impl VStream {
+    /// `Stream::split` + `PendingRequest::finalize`: the upload source and the pending responder
+    pub fn split(self) -> (SourceOut, VRespond) {
+        let (request, respond) = self.inner.split();
+        (SourceOut(request.finalize()), VRespond(respond))
+    }
+}
+
+/// The not yet responded transmitting part of a stream
+pub struct VRespond(Box<dyn http_codec::PendingRespond>);
+
+impl VRespond {
+    /// `PendingRespond::send_intermediate_response`
+    pub fn send_intermediate_response(
+        &self,
+        status: u16,
+        headers: &[(String, String)],
+    ) -> io::Result<()> {
+        self.0
+            .send_intermediate_response(make_response(status, headers)?)
+    }
+
+    /// `PendingRespond::send_response` followed by `RespondedStreamSink::into_pipe_sink`
+    pub fn send_response(
+        self,
+        status: u16,
+        headers: &[(String, String)],
+        eof: bool,
+    ) -> io::Result<SinkOut> {
+        Ok(SinkOut(
+            self.0
+                .send_response(make_response(status, headers)?, eof)?
+                .into_pipe_sink(),
+        ))
+    }
+
+    /// `PendingRespond::send_ok_response` followed by `RespondedStreamSink::into_pipe_sink`
+    pub fn send_ok_response(self, eof: bool) -> io::Result<SinkOut> {
+        Ok(SinkOut(self.0.send_ok_response(eof)?.into_pipe_sink()))
+    }
+
+    /// `PendingRespond::send_bad_response`
+    pub fn send_bad_response(self, status: u16, extra_headers: Vec<(String, String)>) -> io::Result<()> {
+        let status = http::StatusCode::from_u16(status)
+            .map_err(|e| io::Error::new(io::ErrorKind::InvalidInput, e.to_string()))?;
+        self.0.send_bad_response(status, extra_headers)
+    }
+}
+
+/// Outcome of one call of the head parser on a buffer
+#[derive(Debug, Clone, PartialEq, Eq)]
+pub enum VDecoded {
+    /// more input is needed; the buffered length is returned
+    Partial(usize),
+    /// the head is complete: the request and the number of bytes after it
+    Request(VRequest, usize),
+    /// the head is complete: status code, headers and the number of bytes after it
+    Response(u16, Vec<(String, Vec<u8>)>, usize),
+}
+
+/// `http1_codec::decode_request` with the codec's limits
+pub fn decode_request(data: &[u8]) -> Result<VDecoded, String> {
+    match http1_codec::decode_request(BytesMut::from(data), MAX_HEADERS_NUM, MAX_RAW_HEADERS_SIZE) {
+        Ok(DecodeStatus::Partial(b)) => Ok(VDecoded::Partial(b.len())),
+        Ok(DecodeStatus::Complete(r, tail)) => Ok(VDecoded::Request(view_request(&r), tail.len())),
+        Err(e) => Err(e.to_string()),
+    }
+}
+
+/// `http1_codec::decode_response` with the limits `reverse_proxy::handle_stream` passes
+pub fn decode_response(data: &[u8]) -> Result<VDecoded, String> {
+    match http1_codec::decode_response(BytesMut::from(data), MAX_HEADERS_NUM, MAX_RAW_HEADERS_SIZE) {
+        Ok(DecodeStatus::Partial(b)) => Ok(VDecoded::Partial(b.len())),
+        Ok(DecodeStatus::Complete(r, tail)) => Ok(VDecoded::Response(
+            r.status.as_u16(),
+            r.headers
+                .iter()
+                .map(|(n, v)| (n.as_str().to_string(), v.as_bytes().to_vec()))
+                .collect(),
+            tail.len(),
+        )),
+        Err(e) => Err(e.to_string()),
+    }
+}
